@@ -12,4 +12,4 @@ CONSTANTS
 SPECIFICATION LiveSpec
 VIEW view
 INVARIANTS C16_OneLive C16_Capacity C16_Attribution
-PROPERTIES QueueDrains TasksComplete
+PROPERTIES QueueDrains TasksComplete PersistentRedialled
